@@ -206,7 +206,7 @@ impl<W: Write> WriteBox<&mut W> for DrefBox {
 
         write_box_header_ext(writer, self.version, self.flags)?;
 
-        writer.write_u32::<BigEndian>(1)?;
+        writer.write_u32::<BigEndian>(self.url.is_some() as u32)?;
 
         if let Some(ref url) = self.url {
             url.write_box(writer)?;
